@@ -14,6 +14,7 @@ type ArMember struct {
 	Group     int64  `json:"gid"`
 	Mode      string `json:"mode"`
 	Blank     bool   `json:"blank,omitempty"` // numeric fields other than size left blank
+	ZeroPad   bool   `json:"zeropad,omitempty"` // numeric fields written with leading zeros (still decimal)
 	Data      []byte `json:"data"`
 }
 
@@ -35,6 +36,11 @@ func (m ArMember) ArHeader() []byte {
 		h += pad("", 12) + pad("", 6) + pad("", 6) + pad("", 8)
 	} else {
 		h += pad(fmt.Sprint(m.Timestamp), 12) + pad(fmt.Sprint(m.Owner), 6) + pad(fmt.Sprint(m.Group), 6) + pad(m.Mode, 8)
+	}
+	if m.ZeroPad && !m.Blank {
+		h = pad(name, 16) + fmt.Sprintf("%012d%06d%06d", m.Timestamp%1000000000000, m.Owner%1000000, m.Group%1000000) + pad(m.Mode, 8)
+		h += fmt.Sprintf("%010d", len(m.Data)) + "`\n"
+		return []byte(h)
 	}
 	h += pad(fmt.Sprint(len(m.Data)), 10) + "`\n"
 	return []byte(h)
